@@ -42,7 +42,7 @@ def run(prog, tier):
     fam.borrow(R, P, "MECHANISM", prog, c04.check_mapping_dispatch, floor=4)
     fam.borrow(R, P, "MECHANISM", prog, c04.check_mapping_schema, floor=4)
     fam.borrow(R, P, "MECHANISM", prog, c04.check_forbid_bits, floor=1)
-    fam.borrow(R, P, "GRAPH", prog, c16.check_bipartite_import, floor=1)
+    fam.borrow(R, P, "GRAPH", prog, c16.analyse, floor=100)
     R.trust("the axiom table sa/props/_family_specs.py is a faithful transcription of the documented principle of each family",
             "clause blasting of a cardinality constraint over n literals is correct once op / threshold / sign handling is (C04)")
     return R
